@@ -149,7 +149,7 @@ def containsBytes (v q : Bytes) : Bool :=
 /-- `Qualifier(name, query)` for a query without regexp metacharacters -/
 def qualifierMatch (name query : Bytes) (f : Feature) : Bool :=
   let props := f.props.map fun row => row.map fun s => s.toUTF8.toList
-  if name.isEmpty then props.any fun row => row.any fun v => containsBytes v query
+  if name.isEmpty then props.any fun row => (row.drop 1).any fun v => containsBytes v query
   else if query.isEmpty then props.any fun row => row.head? == some name
   else match props.find? fun row => row.head? == some name with
     | some row => (row.drop 1).any fun v => containsBytes v query
